@@ -1,9 +1,11 @@
 (* Correspondence checks for C14 (Thrift descriptors mirror the IDL; lookups exact).
    1401 FieldIDMap   1402 FieldNameMap   1403 caching.TrieTree / HashMap   1404 DJBHash32 / ascii2Int (go2coq tie)
    1405 IDL -> descriptor dump vs elab   1406 lookup sweeps on parsed struct descriptors (Go + native twin)
-   Known findings: 1401 hash-0 key lost on the hash path, 1402 native DJB hash sign-extends bytes >= 0x80,
-   1403 native trie_get reads one node past the index, 1404 same-file `extends` ignored, 1405 negative field id panics,
-   1406 int literal default on double / bool fields dropped. *)
+   Findings 1401-1406 are fixed in /repo (bd82c3d, 0d2d3ac, 86994e0, cc65c3e, c521848): everything is judged against the
+   specification.  The VKnown verdicts below are regression recognisers only (the pre-fix behaviour re-appearing at the
+   FieldNameMap / descriptor level); the orchestrator reports a VKnown of a fixed finding as a violation.
+   The residual quirks of the building blocks caching.HashMap / native hm_get driven DIRECTLY with keys that FieldNameMap.Build no
+   longer hands to them (DJB hash 0, bytes >= 0x80) are not field lookups: VDrift 61 / 62. *)
 From Coq Require Import ZArith List Bool.
 From DG Require Import CaseFormat GoSem Lookup Idl Gen_caching.
 Import ListNotations.
@@ -107,7 +109,7 @@ Fixpoint index_ids (i : Z) (l : list Z) : list (Z * Z) :=
 Fixpoint strictly_increasing (prev : Z) (l : list (Z * Z)) : bool :=
   match l with [] => true | (id, _) :: r => (prev <? id) && strictly_increasing id r end.
 
-(* fields: n ids*, panicked, [nfound (id val)*, nall val*, size] *)
+(* fields: n ids*, panicked, [nfound (id val)*, nall val*, size, nneg (id val)*] *)
 Definition check_1401 (fs : list field) : verdict :=
   match (ids <- pList pZ ;; pk <- pBool ;; ret (ids, pk)) fs with
   | Some ((ids, panicked), rest) =>
@@ -116,15 +118,17 @@ Definition check_1401 (fs : list field) : verdict :=
     | None => expect 1 panicked []                          (* negative id: index out of range *)
     | Some m =>
       if panicked then VBad 2 [] else
-      match (found <- pList (pPair pZ pZ) ;; all <- pList pZ ;; sz <- pZ ;; ret (found, all, sz)) rest with
-      | Some ((found, all, sz), []) =>
-        vand (expect 3 (strictly_increasing (-1) found) [])
+      match (found <- pList (pPair pZ pZ) ;; all <- pList pZ ;; sz <- pZ ;; neg <- pList (pPair pZ pZ) ;; ret (found, all, sz, neg)) rest with
+      | Some ((found, all, sz, neg), []) =>
+        (* Get of a negative id returns nil (no panic) *)
+        vand (expect 8 (forallb (fun f => (fst f <? 0) && (snd f =? 0) && negb (is_some (fid_get m (fst f)))) neg) [])
+       (vand (expect 3 (strictly_increasing (-1) found) [])
        (vand (expect 4 (forallb (fun f => (fst f <? 65536) && (optZ (fid_get m (fst f)) 0 =? snd f)
                                           && (optZ (assocZ (fst f) (rev decl)) 0 =? snd f)) found) [])
        (* every declared id below 65536 was found by the sweep *)
        (vand (expect 5 (forallb (fun d => (65536 <=? fst d) || existsb (fun f => fst f =? fst d) found) decl) [])
        (vand (expect 6 (list_eqb Z.eqb all (map snd (fid_all m))) (map FZ (map snd (fid_all m))))
-             (if sz =? Z.of_nat (length (fid_m m)) then VOk else VDrift 7))))
+             (if sz =? Z.of_nat (length (fid_m m)) then VOk else VDrift 7)))))
       | _ => VBad 98 []
       end
     end
@@ -133,11 +137,21 @@ Definition check_1401 (fs : list field) : verdict :=
 
 (* ------------------------------------------------------------------ probes against a FieldNameMap *)
 
-(* one probe: spec value, algorithm-level value, what Go returned (0 / -1 encoded by the caller as [none]) *)
-Definition judge_go (spec algo : option Z) (hashpath zero_decl : bool) (k : key) (got none : Z) : verdict :=
+(* one probe of a FieldNameMap / descriptor: spec value, algorithm-level value (repaired Build), what the Build before fix
+   bd82c3d computed, what Go returned ([none] encodes nil) *)
+Definition judge_go (spec algo : option Z) (old : fnmap Z) (k : key) (got none : Z) : verdict :=
   if got =? optZ spec none then (if got =? optZ algo none then VOk else VDrift 20)
-  else if (got =? optZ algo none) && hashpath && zero_decl && (djb k =? 0) then VKnown 1401
-  else VBad 21 [FB k; FZ (optZ spec none); FZ got].
+  else
+    let old_hash := match fn_impl old with FHash _ => true | _ => false end in
+    let old_val := match fnm_get old k with Some v => optZ v none | None => none end in
+    if old_hash && (djb k =? 0) && (got =? old_val) then VKnown 1401      (* regression: the hash-0 key is lost again *)
+    else VBad 21 [FB k; FZ (optZ spec none); FZ got].
+
+(* one probe of caching.HashMap driven directly (a building block, not a field lookup) *)
+Definition judge_hashmap (spec algo : option Z) (k : key) (got : Z) : verdict :=
+  if got =? optZ spec 0 then (if got =? optZ algo 0 then VOk else VDrift 20)
+  else if (got =? optZ algo 0) && (djb k =? 0) then VDrift 61              (* hash 0 = empty-slot marker *)
+  else VBad 23 [FB k; FZ (optZ spec 0); FZ got].
 
 (* ------------------------------------------------------------------ 1402 FieldNameMap *)
 
@@ -147,15 +161,14 @@ Definition check_1402 (fs : list field) : verdict :=
   | Some ((keys, kind, pos, sz, probes), []) =>
     let kvs := index_list 1 keys in
     let m := fnm_build (fnm_of_list kvs) in
-    let hashpath := match fn_impl m with FHash _ => true | _ => false end in
-    let zd := zero_hash_declared kvs in
+    let old := fnm_build_prefix (fnm_of_list kvs) in
     let structure := if (fst (fnm_kind m) =? kind) && (snd (fnm_kind m) =? pos) then VOk else VDrift 10 in
     worse structure
       (worst (map (fun pg =>
          let k := fst pg in
          match fnm_get m k with
          | None => VBad 22 [FB k]                               (* model: the Go loop would not terminate *)
-         | Some algo => judge_go (assoc k (rev kvs)) algo hashpath zd k (snd pg) 0
+         | Some algo => judge_go (assoc k (rev kvs)) algo old k (snd pg) 0
          end) probes))
   | _ => VBad 99 []
   end.
@@ -185,14 +198,13 @@ Definition check_1403 (fs : list field) : verdict :=
                  (if (nat =? -5) || (nat =? optZ spec 0) then VOk
                   else match k with
                        | [] => VBad 34 [FB k; FZ nat]
-                       | _ => match tn_get_native ps k (t_root t) with
-                              | None => VKnown 1403                         (* the native walk left the index array *)
+                       | _ => match tn_get_native_nospare ps k (t_root t) with
+                              | None => VKnown 1403       (* regression: the read past the index array is not absorbed by a spare node *)
                               | Some _ => VBad 35 [FB k; FZ (optZ spec 0); FZ nat]
                               end
                        end)) probes))
     else
       let T := hm_build (Z.to_nat load) kvs in
-      let zd := zero_hash_declared kvs in
       worst (map (fun pg =>
          let k := fst pg in
          let got := fst (snd pg) in
@@ -200,10 +212,10 @@ Definition check_1403 (fs : list field) : verdict :=
          match hm_get T k with
          | None => VBad 33 [FB k]
          | Some algo =>
-           worse (judge_go (assoc k kvs) algo true zd k got 0)
+           worse (judge_hashmap (assoc k kvs) algo k got)
                  (if (nat =? -5) || (nat =? optZ (assoc k kvs) 0) then VOk
-                  else if has_high_byte k && (nat =? match hm_get_native T k with Some (Some v) => v | _ => 0 end) then VKnown 1402
-                  else if (nat =? optZ algo 0) && zd && (djb k =? 0) then VKnown 1401
+                  else if has_high_byte k && (nat =? match hm_get_native T k with Some (Some v) => v | _ => 0 end) then VDrift 62
+                  else if (nat =? optZ algo 0) && (djb k =? 0) then VDrift 61
                   else VBad 36 [FB k; FZ (optZ (assoc k kvs) 0); FZ nat])
          end) probes)
   | _ => VBad 99 []
@@ -232,12 +244,14 @@ Definition check_1405 (fs : list field) : verdict :=
   | Some ((o, p, sd, oc), dump) =>
     let d := Z.to_nat sd in
     let spec := ser_service (elab true true d p o) in
-    (* a negative field id makes the parse panic (an error after the proposed patch): finding 1405 *)
-    if field_negative_id p && negb (oc =? 0) then VKnown 1405
+    (* regression recogniser of finding 1405: a negative field id makes the parse panic *)
+    if field_negative_id p && (oc =? 2) then VKnown 1405
     else if oc =? 2 then VBad 2 []
     else
       let impl := if oc =? 0 then dump else [FZ 0] in
-      if list_eqb field_eqb impl spec then VOk
+      if list_eqb field_eqb impl spec then
+        (* a reachable field with a negative id is rejected by both sides: outside the supported domain (FieldID is a uint16) *)
+        (if field_negative_id p && (oc =? 1) then VSkip else VOk)
       else
         let coded := ser_service (elab false false d p o) in
         if list_eqb field_eqb impl coded then
@@ -254,19 +268,19 @@ Definition sort_ids (l : list Z) : list Z := fold_right insert_z [] l.
 
 (* native twin of one probe. got: >= 0 id written, -1 unknown field, -2 other error, -3 panic, -4 found (id not visible),
    -5 not attempted, -6 not attempted because the harness predicts the out-of-bounds read *)
-Definition judge_native (m : fnmap Z) (spec : option Z) (k : key) (got : Z) : verdict :=
-  let oob := match fn_impl m with
-             | FTrie t => match k with
-                          | [] => false
-                          | _ => match tn_leaves (t_root t) with
-                                 | None => false
-                                 | Some _ => match tn_get_native (t_positions t) k (t_root t) with None => true | Some _ => false end
-                                 end
-                          end
-             | _ => false
-             end in
+Definition judge_native (m old : fnmap Z) (spec : option Z) (k : key) (got : Z) : verdict :=
+  (* would the walk of the native trie_get leave the index array if there were no spare node behind it? *)
+  let boundary := match fn_impl m with
+                  | FTrie t => match k with
+                               | [] => false
+                               | _ => match tn_leaves (t_root t) with
+                                      | None => false
+                                      | Some _ => match tn_get_native_nospare (t_positions t) k (t_root t) with None => true | Some _ => false end
+                                      end
+                               end
+                  | _ => false
+                  end in
   if got =? -5 then VOk
-  else if got =? -6 then (if oob then VKnown 1403 else VBad 40 [FB k])
   else if got =? -2 then VOk                                    (* JSON rejected for another reason (e.g. invalid UTF-8 key): no information *)
   else
     let agrees := match spec with
@@ -274,12 +288,12 @@ Definition judge_native (m : fnmap Z) (spec : option Z) (k : key) (got : Z) : ve
                   | None => got =? -1
                   end in
     if agrees then VOk
-    else if oob then VKnown 1403
+    else if boundary then VKnown 1403                            (* regression: out-of-bounds read of the native trie_get *)
     else
-      match fn_impl m with
+      match fn_impl old with
       | FHash T =>
         let nat := match hm_get_native T k with Some (Some id) => id | _ => -1 end in
-        if has_high_byte k && (got =? nat) then VKnown 1402
+        if has_high_byte k && (got =? nat) then VKnown 1402      (* regression: non-ASCII key on the hash path *)
         else match hm_get T k with
              | Some algo => if (got =? optZ algo (-1)) && (djb k =? 0) then VKnown 1401 else VBad 41 [FB k; FZ (optZ spec (-1)); FZ got]
              | None => VBad 42 [FB k]
@@ -294,8 +308,7 @@ Definition check_1406 (fs : list field) : verdict :=
   | Some ((mw, flds, kind, pos, found, probes), []) =>
     let kvs := flat_map (fun f => reg_keys mw (fst f) (fst (snd f)) (snd (snd f))) flds in
     let m := fnm_build (fnm_of_list kvs) in
-    let hashpath := match fn_impl m with FHash _ => true | _ => false end in
-    let zd := zero_hash_declared kvs in
+    let old := fnm_build_prefix (fnm_of_list kvs) in
     let structure := if (fst (fnm_kind m) =? kind) && (snd (fnm_kind m) =? pos) then VOk else VDrift 10 in
     (* FieldById over all 65536 ids finds exactly the exposed ids, each mapped to itself *)
     let ids := sort_ids (map fst flds) in
@@ -306,11 +319,11 @@ Definition check_1406 (fs : list field) : verdict :=
          let spec := assoc k (rev kvs) in
          match fnm_get m k with
          | None => VBad 22 [FB k]
-         | Some algo => worse (judge_go spec algo hashpath zd k (fst (snd pg)) (-1)) (judge_native m spec k (snd (snd pg)))
+         | Some algo => worse (judge_go spec algo old k (fst (snd pg)) (-1)) (judge_native m old spec k (snd (snd pg)))
          end) probes)))
   | _ => VBad 99 []
   end.
 
-(* 1407: the probes of a sweep on which the native trie_get would read one TrieNode past the index array (not run in-process);
-   same fields as 1406 *)
+(* 1407: the probes of a sweep on which the native trie_get reads index[len] (absorbed by the spare node since fix 0d2d3ac; run
+   under debug.SetPanicOnFault); same fields as 1406 *)
 Definition check_1407 (fs : list field) : verdict := check_1406 fs.
